@@ -109,6 +109,20 @@ def scenarios_for(rnd, d, ob, facts, tier):
         s = dict(id="%s/%d" % (name, n), inj=name, kind=kind, seed=rnd.randrange(1 << 30), max_delay_us=kw.pop("delay", 60), gate_ms=400)
         s.update(kw)
         out.append(s)
+    if d.get("kf"):
+        # forced scenario realising the model witness of the recorded finding
+        P = d["prefix"]
+        kf = d["kf"]
+        if kf == "KF-C06-1":
+            sc("fail", fail=["New%sT2" % P], delay=0)
+        elif kf == "KF-C07-1":
+            sc("cancel", cancel_on=dict(kind="before", fn=""), delay=0, gates={"New%sT3" % P: [dict(kind="never", fn="")]}, gate_ms=300)
+        elif kf == "KF-C07-2":
+            sc("cancel", cancel_on=dict(kind="before", fn=""), delay=0, gates={"New%sT1" % P: [dict(kind="never", fn="")]}, gate_ms=300)
+        elif kf == "KF-C08-1":
+            sc("fail", fail=["New%sT3" % P], delay=0)
+        sc("free", delay=0)
+        return out
     has_gos = bool(ob["gos"])
     reps = 3 if tier == "quick" else 8
     if has_gos:
@@ -266,7 +280,7 @@ def _stage(seed, tier):
             suspicious.insert(0, "iso%d" % i)
     maxp = 4 if tier == "quick" else 24
     rest = [p for p in sorted(bypkg) if p not in suspicious]
-    pk_names = suspicious[:16] + [p for p in rest if p.startswith("p")][:maxp] + [p for p in rest if p.startswith("y")]
+    pk_names = suspicious[:16] + [p for p in rest if p.startswith("kf")] + [p for p in rest if p.startswith("p")][:maxp] + [p for p in rest if p.startswith("y")]
     plans = {}
     for pk in pk_names:
         injs = []
